@@ -13,7 +13,9 @@ const (
 	tBundle    = 20 // VB: a plain struct of two carriers
 	tAny       = 21 // interface{}: any value is assignable to it, so a mixed-up key is delivered silently
 	tSliceV    = 22 // VS: a named type of slice kind; its nil value is a legitimate (token-less) group member
-	nTypes     = 23
+	tTwinA     = 23 // two distinct interface types (method M0) that print identically
+	tTwinB     = 24
+	nTypes     = 25
 )
 
 var typeTab [nTypes]reflect.Type
@@ -32,12 +34,15 @@ func init() {
 	typeTab[tBundle] = reflect.TypeOf(VB{})
 	typeTab[tAny] = reflect.TypeOf((*interface{})(nil)).Elem()
 	typeTab[tSliceV] = reflect.TypeOf(VS{})
+	typeTab[tTwinA], typeTab[tTwinB] = TwinA(), TwinB()
 	for i := range typeTab {
 		typeName[i] = typeTab[i].String()
 	}
 }
 
-func isIface(t int) bool { return (t >= tIfaceBase && t < tBundle) || t == tAny }
+func isIface(t int) bool {
+	return (t >= tIfaceBase && t < tBundle) || t == tAny || t == tTwinA || t == tTwinB
+}
 
 // asPtr returns a pointer to a nil interface of iface type t, as dig.As wants.
 func asPtr(t int) interface{} {
